@@ -51,7 +51,9 @@ type singleCase struct {
 func pick[T any](r *rand.Rand, xs []T) T { return xs[r.IntN(len(xs))] }
 
 // genObjs draws n distinct objects of the kinds the package type installs.
-func genObjs(r *rand.Rand, pkg string, n int, tls bool) []objSpec {
+// genObjs: with forceSameName the set always holds a same-named pair of different kinds (used by
+// real-reconciler sequences, whose object references are keyed by apiVersion, kind and name)
+func genObjs(r *rand.Rand, pkg string, n int, tls bool, forceSameName bool) []objSpec {
 	var pool []objSpec
 	if pkg == "Provider" {
 		for _, p := range r.Perm(len(crdPool)) {
@@ -60,11 +62,25 @@ func genObjs(r *rand.Rand, pkg string, n int, tls bool) []objSpec {
 		if !tls {
 			// with a TLS secret the establisher renames webhook configurations; that handling is
 			// outside this property, the generator only ships them without a secret
-			pool = append(pool, objSpec{Kind: "vwc", Name: "validating-hooks"}, objSpec{Kind: "mwc", Name: "mutating-hooks"})
+			mw := "mutating-hooks"
+			if r.IntN(3) == 0 || forceSameName {
+				mw = "validating-hooks" // both webhook configurations named alike: different kinds, same apiVersion
+			}
+			pool = append(pool, objSpec{Kind: "vwc", Name: "validating-hooks"}, objSpec{Kind: "mwc", Name: mw})
 			// keep CRDs dominant but let the webhook configurations appear anywhere
 			i, j := r.IntN(len(pool)), r.IntN(len(pool))
 			pool[len(pool)-1], pool[i] = pool[i], pool[len(pool)-1]
 			pool[len(pool)-2], pool[j] = pool[j], pool[len(pool)-2]
+			if forceSameName {
+				// the same-named webhook configurations lead the set
+				k := 0
+				for q := range pool {
+					if pool[q].Kind == "vwc" || pool[q].Kind == "mwc" {
+						pool[k], pool[q] = pool[q], pool[k]
+						k++
+					}
+				}
+			}
 		}
 	} else {
 		for _, p := range r.Perm(len(xrdPool)) {
@@ -74,6 +90,27 @@ func genObjs(r *rand.Rand, pkg string, n int, tls bool) []objSpec {
 			pool = append(pool, objSpec{Kind: "comp", Name: compPool[p]})
 		}
 		r.Shuffle(len(pool), func(i, j int) { pool[i], pool[j] = pool[j], pool[i] })
+		if r.IntN(3) == 0 || forceSameName {
+			// a Composition named after its XRD: different kinds, same apiVersion, same name
+			xi, ci := -1, -1
+			for k, o := range pool {
+				if o.Kind == "xrd" && xi < 0 {
+					xi = k
+				}
+				if o.Kind == "comp" && ci < 0 {
+					ci = k
+				}
+			}
+			if xi >= 0 && ci >= 0 {
+				pool[ci].Name = pool[xi].Name
+				// keep the pair together at the front so that small object sets contain both
+				pool[0], pool[xi] = pool[xi], pool[0]
+				if ci == 0 {
+					ci = xi
+				}
+				pool[1], pool[ci] = pool[ci], pool[1]
+			}
+		}
 	}
 	if n > len(pool) {
 		n = len(pool)
@@ -93,7 +130,7 @@ func genSingle(r *rand.Rand) singleCase {
 	if r.IntN(5) == 0 {
 		sc.Conc = 4
 	}
-	sc.Objs = genObjs(r, sc.Pkg, 1+r.IntN(6), sc.TLS)
+	sc.Objs = genObjs(r, sc.Pkg, 1+r.IntN(6), sc.TLS, false)
 	for range sc.Objs {
 		sc.Pre = append(sc.Pre, pick(r, benignClasses))
 	}
@@ -136,6 +173,37 @@ func (sc *singleCase) prepare(c *kit.Ctx, name string, seed uint64) *exec {
 		x.count("pre_"+sc.Pre[i], 1)
 	}
 	return x
+}
+
+// runLarge: packages far larger than any batching or concurrency limit inside the establisher
+// (providers ship hundreds of CRDs). One object late in the package cannot be taken over: all
+// or nothing still holds for the whole package.
+func runLarge(c *kit.Ctx, i int) {
+	name := fmt.Sprintf("large/%d", i)
+	if !c.Want(name) {
+		return
+	}
+	r := c.Rng("large", i)
+	n := 150 + r.IntN(120)
+	sc := singleCase{Pkg: "Provider", Control: true, Conc: 1 + r.IntN(3), Content: 1}
+	bad := n/2 + r.IntN(n/2)
+	for k := 0; k < n; k++ {
+		sc.Objs = append(sc.Objs, objSpec{Kind: "crd", Name: fmt.Sprintf("kind%03ds.big%d.example.org", k, i)})
+		cls := "absent"
+		if k == bad {
+			cls = []string{"otherpkg", "rejected-absent", "foreignctl", "rejected-existing"}[i%4]
+		} else if r.IntN(10) == 0 {
+			cls = "uncontrolled"
+		}
+		sc.Pre = append(sc.Pre, cls)
+	}
+	x := sc.prepare(c, name, uint64(c.Seed)*9_000_011+uint64(i))
+	x.desc = map[string]any{"objects": n, "untakeable_object_index": bad, "class": sc.Pre[bad], "conc": sc.Conc}
+	x.establish("pk-r1", true)
+	x.gc()
+	x.count("large_cases", 1)
+	c.Eval(fmt.Sprintf("large|%d|%d|%d|%s", i, n, bad, sc.Pre[bad]), true)
+	x.flush()
 }
 
 func runSingle(c *kit.Ctx, i int) {
@@ -183,7 +251,7 @@ var programs = [][]string{
 	{"D", "A"}, {"A", "D"},
 }
 
-func genSeq(r *rand.Rand, thorough bool) seqCase {
+func genSeq(r *rand.Rand, thorough bool, sameName ...string) seqCase {
 	sc := seqCase{Pkg: "Provider", KillJunk: -1, KillOtherRev: -1, Third: -1, Pre: map[string]string{}}
 	if r.IntN(100) < 35 {
 		sc.Pkg = "Configuration"
@@ -191,11 +259,18 @@ func genSeq(r *rand.Rand, thorough bool) seqCase {
 	if sc.Pkg == "Provider" && r.IntN(3) == 0 {
 		sc.TLS = true
 	}
-	pool := genObjs(r, sc.Pkg, 8, sc.TLS)
+	force := len(sameName) > 0 && sameName[0] != ""
+	if force {
+		sc.Pkg, sc.TLS = sameName[0], false
+	}
+	pool := genObjs(r, sc.Pkg, 8, sc.TLS, force)
 	for i := range pool {
 		pool[i].Conv = pool[i].Conv && sc.TLS // a conversion webhook needs the CA; without it nothing is installable
 	}
 	n1 := 1 + r.IntN(min(5, len(pool)-1))
+	if force && n1 < 2 {
+		n1 = 2 // both objects of the same-named pair belong to the first revision
+	}
 	sc.S1 = append(sc.S1, pool[:n1]...)
 	// rev2: drops some of rev1's objects, keeps the rest, adds new ones
 	for _, s := range sc.S1 {
@@ -338,7 +413,15 @@ func runSeq(c *kit.Ctx, i int, real bool) {
 	if !wantUnder(c, base) {
 		return
 	}
-	sc := genSeq(c.Rng(stream, i), c.Thorough())
+	force := ""
+	if real {
+		// two of three real-reconciler sequences ship a same-named pair of different kinds
+		force = []string{"Configuration", "Provider", ""}[i%3]
+	}
+	sc := genSeq(c.Rng(stream, i), c.Thorough(), force)
+	if force != "" && len(sc.S1) < 2 {
+		sc = genSeq(c.Rng(stream+"-retry", i), c.Thorough(), force)
+	}
 	for p1 := range programs {
 		for p2 := range programs {
 			name := fmt.Sprintf("%s/%d-%d", base, p1, p2)
@@ -614,6 +697,9 @@ func main() {
 	for i := 0; i < c.N(14, 60); i++ {
 		jobs = append(jobs, job{"seq", i})
 	}
+	for i := 0; i < c.N(4, 16); i++ {
+		jobs = append(jobs, job{"large", i})
+	}
 	for i := 0; i < c.N(5, 20); i++ {
 		jobs = append(jobs, job{"rseq", i})
 	}
@@ -634,6 +720,8 @@ func main() {
 					switch j.kind {
 					case "single":
 						runSingle(c, j.i)
+					case "large":
+						runLarge(c, j.i)
 					case "seq":
 						runSeq(c, j.i, false)
 					case "rseq":
